@@ -3,7 +3,7 @@ CONSTANTS
   GScalars <- ScalarsSmall
   MaxDepth = 1
   MaxNodes = 1
-  Bases <- BasesFull
+  Bases <- BasesSmall
   MaxFaults = 2
   RefNames <- RefNamesDef
   DropRule = ""
